@@ -6,7 +6,7 @@ import c04_units
 TITLE = "Comments are transparent"
 LEVEL_TEXT = (
     "the comment stripper is extracted from the source as a finite transducer and compared with the reference comment lexer"
-    " for all input strings (product search, complete); the parser sees only stripped text."
+    " for all input strings (product search, complete); the parser sees only stripped text; the unstripped text goes to the stripper and the file table only; the unterminated-comment report is an error."
 )
 NOT_DECIDED = "end-to-end equality of findings when comments are blanked (follows from the stripper equivalence, byte-length preservation and the single-reader rule, not decided separately)."
 ENGINE = "mirfacts+astq"
